@@ -8,6 +8,7 @@ import (
 	"path/filepath"
 	"strconv"
 	"text/template"
+	"unicode/utf8"
 
 	"github.com/gardenbed/charm/ui"
 	auto "github.com/moorara/algo/automata"
@@ -318,7 +319,12 @@ func formatRunes(runes []rune) string {
 
 	for _, r := range runes {
 		// A rune literal in Go syntax: quotes, backslashes, control and non-printable characters are escaped.
-		fmt.Fprintf(&b, "%s, ", strconv.QuoteRune(r))
+		// A code point of the surrogate block has no rune literal (it would be written as '\ufffd'): its value is written.
+		if utf8.ValidRune(r) {
+			fmt.Fprintf(&b, "%s, ", strconv.QuoteRune(r))
+		} else {
+			fmt.Fprintf(&b, "%#x, ", r)
+		}
 	}
 
 	if len(runes) > 0 {
